@@ -8,7 +8,9 @@ import (
 	"github.com/btcsuite/btcd/btcutil"
 	"github.com/btcsuite/btcd/chaincfg"
 	"github.com/btcsuite/btcd/chaincfg/chainhash"
+	"github.com/btcsuite/btcd/rpcclient"
 	"github.com/btcsuite/btcd/wire"
+	"github.com/btcsuite/btcwallet/waddrmgr"
 	"github.com/btcsuite/btcwallet/wtxmgr"
 	"github.com/lightninglabs/neutrino"
 )
@@ -68,4 +70,51 @@ func (s *NeutrinoClient) VerifOnBlockDisconnected(hash *chainhash.Hash,
 	height int32, t time.Time) {
 
 	s.onBlockDisconnected(hash, height, t)
+}
+
+// VerifNewRPCClientHTTP creates a btcd client that talks plain HTTP POST to the
+// given host (no websocket, no server-side notifications): the monitor delivers
+// the notification callbacks itself through the Verif* methods below.
+func VerifNewRPCClientHTTP(chainParams *chaincfg.Params, host, user,
+	pass string) (*RPCClient, error) {
+
+	client := &RPCClient{
+		connConfig: &rpcclient.ConnConfig{
+			Host:         host,
+			User:         user,
+			Pass:         pass,
+			HTTPPostMode: true,
+			DisableTLS:   true,
+		},
+		chainParams:         chainParams,
+		enqueueNotification: make(chan interface{}),
+		dequeueNotification: make(chan interface{}),
+		currentBlock:        make(chan *waddrmgr.BlockStamp),
+		quit:                make(chan struct{}),
+	}
+	rpcClient, err := rpcclient.New(client.connConfig, nil)
+	if err != nil {
+		return nil, err
+	}
+	client.Client = rpcClient
+
+	return client, nil
+}
+
+// VerifStartHandler starts the client's notification queue worker, as Start
+// does once the connection is established.
+func (c *RPCClient) VerifStartHandler() {
+	c.quitMtx.Lock()
+	c.started = true
+	c.quitMtx.Unlock()
+
+	c.wg.Add(1)
+	go c.handler()
+}
+
+// VerifOnBlockConnected delivers the server notification of that name.
+func (c *RPCClient) VerifOnBlockConnected(hash *chainhash.Hash, height int32,
+	t time.Time) {
+
+	c.onBlockConnected(hash, height, t)
 }
